@@ -11,6 +11,7 @@ import multiprocessing
 import os
 import re
 import sys
+import tempfile
 
 from . import tlc
 from . import terms as T
@@ -217,8 +218,11 @@ def _hook(event, args):
     elif event == "exec":
         code = args[0]
         fn = getattr(code, "co_filename", "")
-        if fn != "<verif-load>":
+        if fn != "<verif-load>" and fn not in _ALLOWED_EXEC:
             AUDIT.append("exec:" + str(fn)[:40])
+
+
+_ALLOWED_EXEC = set()
 
 
 def observe(src):
@@ -230,14 +234,14 @@ def observe(src):
         _AUDIT_INSTALLED[0] = True
     rec = {"heads": [{"name": cps(n), "arity": k} for n, k in src.heads], "strings": [cps(s) for s in src.strings], "ints": list(src.ints),
            "vars": [cps(v) for v in src.variables], "outcome": "returned", "parse_ok": False, "module": flatten({"k": "Module", "body": []}),
-           "load_ok": False, "newkeys": [], "genflags": [], "callable": [], "audit": [], "label": src.label, "text": src.text[:600]}
+           "load_ok": False, "newkeys": [], "genflags": [], "callable": [], "audit": [], "file_ok": True, "label": src.label, "text": src.text[:600]}
     try:
         with contextlib.redirect_stderr(io.StringIO()), contextlib.redirect_stdout(io.StringIO()):
             if src.debug:
                 class Ctx:
-                    debug_filename = True
-                    debug_parser = True
-                    debug_generator = True
+                    debug_filename = src.debug in (True, "filename")
+                    debug_parser = src.debug in (True, "parser")
+                    debug_generator = src.debug in (True, "generator")
                     current_source_file = "verif.prolog"
                     outf = io.StringIO()
                 code = real.compiler.compile_prolog_from_string(src.text, Ctx)
@@ -294,6 +298,55 @@ def observe(src):
                     ok = False
                     rec["why"] = "query %s/%d: %s: %s" % (n, k, type(e).__name__, str(e)[:60])
                 rec["callable"].append(ok)
+        if rec["load_ok"]:
+            # the documented file route: the same output written to a file (UTF-8) and loaded with
+            # load_script_from_file must define the same predicates with the same answers
+            n_audit = len(AUDIT)
+            fd, path = tempfile.mkstemp(suffix=".py", dir=os.path.join(os.path.dirname(os.path.dirname(os.path.abspath(__file__))), "work"))
+            try:
+                with os.fdopen(fd, "wb") as f:
+                    f.write(out.encode("utf-8"))
+                yp2 = real.YP()
+                before2 = set(yp2.eval_context)
+                del AUDIT[n_audit:]
+                _ALLOWED_EXEC.clear()
+                _ALLOWED_EXEC.add(path)
+                try:
+                    yp2.load_script_from_file(path)
+                    same = sorted(set(yp2.eval_context) - before2) == new
+                    for n, k in src.heads:
+                        if not same:
+                            break
+                        both = []
+                        for e in (yp, yp2):
+                            vs = [e.variable() for _ in range(k)]
+                            got = []
+                            replay.BUDGET.arm(200000)
+                            try:
+                                q = e.query(n, vs)
+                                for i, _ in enumerate(q):
+                                    got.append(real.project_tuple(vs))
+                                    if i >= 3:
+                                        break
+                                q.close()
+                            except (replay.BudgetExceeded, RecursionError):
+                                got = None
+                            finally:
+                                replay.BUDGET.disarm()
+                            both.append(got)
+                        if None in both:
+                            continue
+                        same = both[0] == both[1]
+                    rec["file_ok"] = bool(same) and [a for a in AUDIT[n_audit:] if a != "open"] == []
+                    del AUDIT[n_audit:]
+                except RecursionError:
+                    del AUDIT[n_audit:]      # Python's own compiler ran out of stack on a huge expression: not decided here
+                except Exception as e:
+                    rec["file_ok"] = False
+                    rec["why"] = "file route: %s: %s" % (type(e).__name__, str(e)[:80])
+                    del AUDIT[n_audit:]
+            finally:
+                os.unlink(path)
     finally:
         _AUDIT_ON[0] = False
     rec["audit"] = list(AUDIT)
@@ -329,7 +382,7 @@ def validate(records, which, tag):
     from . import real
     api = sorted(real.YP().eval_context.keys())
     head = {"callnames": [cps(x) for x in CALLNAMES], "readnames": [cps(x) for x in READNAMES], "apinames": [cps(x) for x in api]}
-    slim = [head] + [{k: r[k] for k in ("heads", "strings", "ints", "outcome", "parse_ok", "module", "load_ok", "newkeys", "genflags", "callable", "audit")} for r in records]
+    slim = [head] + [{k: r[k] for k in ("heads", "strings", "ints", "outcome", "parse_ok", "module", "load_ok", "newkeys", "genflags", "callable", "audit", "file_ok")} for r in records]
     fn = os.path.join(tlc.WORK, "emitted-%s-%d.json" % (tag, os.getpid()))
     with open(fn, "w") as f:
         json.dump(slim, f)
